@@ -280,13 +280,13 @@ func (r *c18Reg) stepTerm(s c18Step) (string, error) {
 			return "", err
 		}
 		if s.kind == 0 {
-			return "SSet " + k + " " + v, nil
+			return "bS " + k + " " + v, nil
 		}
-		return "SSetSync " + k + " " + v, nil
+		return "bY " + k + " " + v, nil
 	}
 	if s.kind >= 4 { // a bare Delete: the model has no such step; encode as a one-element batch
 		k, _, err := r.keyTerm(s.ops[0].key)
-		return "SBatch [WDel " + k + "] " + vg.B(s.kind == 5), err
+		return "bB [bD " + k + "] " + vg.B(s.kind == 5), err
 	}
 	var ws []string
 	for _, o := range s.ops {
@@ -295,16 +295,16 @@ func (r *c18Reg) stepTerm(s c18Step) (string, error) {
 			return "", err
 		}
 		if o.del {
-			ws = append(ws, "WDel "+k)
+			ws = append(ws, "bD "+k)
 		} else {
 			v, err := r.valTerm(typ, o.val)
 			if err != nil {
 				return "", err
 			}
-			ws = append(ws, "WPut "+k+" "+v)
+			ws = append(ws, "bP "+k+" "+v)
 		}
 	}
-	return "SBatch " + vg.L(ws) + " " + vg.B(s.kind == 3), nil
+	return "bB " + vg.L(ws) + " " + vg.B(s.kind == 3), nil
 }
 
 // compact form for the large pruning case (deletions only)
